@@ -856,8 +856,10 @@ func minimiseAndConfirm(c *Check, argv []string, tier string, fd *found) (string
 	p := c.Gen(fd.seed, tier)
 	p.Prop, p.Seed, p.Tier = c.ID, fd.seed, tier
 	dir := filepath.Join(VerifDir(), "replays")
-	raw := filepath.Join(dir, fmt.Sprintf("%s-%d.raw.json", c.ID, fd.seed))
-	final := filepath.Join(dir, fmt.Sprintf("%s-%d.json", c.ID, fd.seed))
+	// one file per (seed, violation class): two classes first seen at the same seed must not overwrite each other
+	tag := fmt.Sprintf("%08x", uint32(Hash64(fd.v.Sig)))
+	raw := filepath.Join(dir, fmt.Sprintf("%s-%d-%s.raw.json", c.ID, fd.seed, tag))
+	final := filepath.Join(dir, fmt.Sprintf("%s-%d-%s.json", c.ID, fd.seed, tag))
 	rf := &ReplayFile{Property: c.ID, Seed: fd.seed, Violation: fd.v, Plan: p, OrigSteps: len(p.Steps)}
 	b, _ := json.MarshalIndent(rf, "", " ")
 	os.WriteFile(raw, b, 0o644)
